@@ -7,6 +7,7 @@ EvaluatorIsSpec), and only then are its float results used as the expected value
 NAMES = ["psi", "Bp_R", "Bp_Z", "d2psidR2", "d2psidZ2", "d2psidRdZ", "Bzeta", "B2", "dBzetadR", "dBzetadZ",
          "dBRdR", "dBRdZ", "dBZdR", "dBZdZ", "dB2dR", "dB2dZ"]
 FNAMES = ["f_R", "f_Z"]
+CURLNAMES = ["curl_R", "curl_Z", "curl_zeta", "curl_x"]      # curl(b/B) in cylindrical components, and curl(b/B).grad(psi); defined where B != 0
 
 
 class Dual:
@@ -47,6 +48,16 @@ def fields(R, p, pR, pZ, pRR, pRZ, pZZ, F, Fp):
     out = {"psi": p, "Bp_R": br.v, "Bp_Z": bz.v, "d2psidR2": dpsiR.r, "d2psidZ2": dpsiZ.z, "d2psidRdZ": dpsiR.z,
            "Bzeta": bt.v, "B2": b2.v, "dBzetadR": bt.r, "dBzetadZ": bt.z, "dBRdR": br.r, "dBRdZ": br.z, "dBZdR": bz.r, "dBZdZ": bz.z,
            "dB2dR": b2.r, "dB2dZ": b2.z}
+    try:
+        bdef = bool(b2.v != 0)
+    except ValueError:
+        bdef = True
+    if bdef:
+        ar, az, at = br / b2, bz / b2, bt / b2          # b/B = B/B^2
+        out["curl_R"] = -at.z
+        out["curl_Z"] = at.r + at.v / R
+        out["curl_zeta"] = ar.z - az.r
+        out["curl_x"] = out["curl_R"] * pR + out["curl_Z"] * pZ
     g2 = pR * pR + pZ * pZ
     try:
         defined = bool(g2 != 0)
